@@ -80,6 +80,9 @@ def make_doc(seed, ncontracts=2, nblocks=4, with_no_asm=True, version="0.8.15+co
             if rng.random() < 0.5:
                 sub[".data"]["0"] = {".auxdata": "a264" + "%060x" % rng.getrandbits(240), ".code": code_section(rng, 2, 300, pool)}
         data["0"] = sub
+        # further code-bearing sub-assemblies next to the runtime code (contracts created with `new`): sections must not be mixed up
+        for extra in range(rng.choice([0, 0, 1, 2])):
+            data[str(extra + 1)] = {".auxdata": "a264" + "%060x" % rng.getrandbits(240), ".code": code_section(rng, rng.randrange(1, 3), 500 + 100 * extra, pool)}
         if rng.random() < 0.4:
             data["%064X" % rng.getrandbits(256)] = "%040x" % rng.getrandbits(160)
         asm = {".code": code_section(rng, max(1, nblocks // 2), 1, pool), ".data": data}
@@ -124,3 +127,20 @@ def analysis_failing():
     code = good + bad
     return [("failing0.json_solc", {"contracts": {"a.sol:A": {"asm": {".code": code, ".data": {"0": {".auxdata": "a1", ".code": list(bad) + [it("tag", "2"), it("JUMPDEST")] + list(good[2:])}}}}},
                                    "version": "0.8.15+commit.e14f2714"})]
+
+
+
+def multi_section():
+    """a contract whose `.data` holds two code-bearing sub-assemblies ("0" runtime, "1" the creation code of a contract deployed with `new`)
+    and a second contract with an empty `.data`: every section keeps its own instruction stream"""
+    it = lambda n, v=None, **kw: dict({"begin": 1, "end": 2, "name": n, "source": 0}, **({"value": v} if v is not None else {}), **kw)
+    sec0 = [it("tag", "1"), it("JUMPDEST"), it("PUSH", "1"), it("PUSH", "0"), it("ADD"), it("DUP2"), it("ADD"), it("PUSH", "40"), it("MSTORE"),
+            it("PUSH", "20"), it("PUSH", "0"), it("LOG1"), it("PUSH [tag]", "2"), it("JUMP", None, jumpType="[in]"), it("tag", "2"), it("JUMPDEST"), it("STOP")]
+    sec1 = [it("tag", "7", source=1), it("JUMPDEST", source=1), it("PUSH", "3", source=1), it("PUSH", "0", source=1), it("ADD", source=1), it("GAS", source=1),
+            it("ADD", source=1), it("PUSH [tag]", "7", source=1), it("JUMP", None, jumpType="[out]", source=1)]
+    top = [it("PUSH", "80"), it("PUSH", "40"), it("MSTORE"), it("PUSH", "0"), it("DUP1"), it("REVERT")]
+    return [("multi0.json_solc", {"contracts": {"f.sol:Factory": {"asm": {".code": top, ".data": {"0": {".auxdata": "a1", ".code": sec0,
+                                                                                                          ".data": {"0": {".auxdata": "a2", ".code": list(sec1)}}},
+                                                                                                    "1": {".auxdata": "a3", ".code": sec1}},
+                                                                          "sourceList": ["f.sol", "#utility.yul"]}},
+                                                "f.sol:L": {"asm": {".code": list(top), ".data": {}}}}, "version": "0.8.15+commit.e14f2714"})]
